@@ -48,6 +48,11 @@ type Exchange struct {
 	Children []*Exchange
 	Arrivals []*Arrival
 	Interim  []http.Header // headers of informational (1xx) responses that preceded the final one
+	// Background marks exchanges made by the authenticator's own background activity (group refresh
+	// loops, the directory client's token fetch): they are not caused by the request in progress.
+	Background bool
+	// Overlap marks exchanges of a twin step: another request was in flight at the same time.
+	Overlap bool
 }
 
 // Log is the append-only event log of one run.
@@ -113,9 +118,17 @@ func (l *Log) Render() []string {
 	l.mu.Lock()
 	defer l.mu.Unlock()
 	c := newCanon()
-	var out []string
+	var out, bg []string
+	n := 0
 	for _, e := range l.Ex {
-		line := fmt.Sprintf("#%d s%d t=%v %s %s %s %s%s -> %d", e.Seq, e.Step, e.At, e.Link, e.Actor, e.Method, e.Host, c.text(e.Target), e.Status)
+		if e.Background {
+			// background activity runs concurrently with requests at the same virtual instant: it is
+			// rendered as a sorted multiset after the causal sequence, not interleaved with it
+			bg = append(bg, fmt.Sprintf("bg t=%v %s %s %s%s -> %d %s", e.At, e.Link, e.Method, e.Host, e.Target, e.Status, errClass2(e.Err)))
+			continue
+		}
+		line := fmt.Sprintf("#%d s%d t=%v %s %s %s %s%s -> %d", n, e.Step, e.At, e.Link, e.Actor, e.Method, e.Host, c.text(e.Target), e.Status)
+		n++
 		if e.Err != "" {
 			line += " err=" + errClass(e.Err)
 		}
@@ -134,7 +147,15 @@ func (l *Log) Render() []string {
 		}
 		out = append(out, line)
 	}
-	return out
+	sort.Strings(bg)
+	return append(out, bg...)
+}
+
+func errClass2(s string) string {
+	if s == "" {
+		return ""
+	}
+	return "err=" + errClass(s)
 }
 
 // Hash is the hex SHA-256 of the rendered trace.
